@@ -1,6 +1,8 @@
 """C02 - JIT agrees with the interpreter (structural part)."""
 from .. import ast as A
 from .. import jit as J
+from .. import asmchecks as AC
+from .. import asmcopy as AK
 
 
 def run(ctx):
@@ -10,3 +12,24 @@ def run(ctx):
     ctx.guarded(r, J.r3_callbacks)
     r = ctx.rule("R3b", "every assembler implements the full builder set", 8)
     ctx.guarded(r, J.builder_sets)
+    r = ctx.rule("R2a", "x86_64 builders write only their output register, xmm0-3 and scratch GPRs", 4 * 26)
+    for kind in AC.ALL:
+        ctx.guarded(r, AC.check_write_discipline, kind)
+    r = ctx.rule("R2b", "no path reads an input after the output (alias) or a may-be-immediate operand after xmm0 is clobbered", 4 * 27)
+    for kind in AC.ALL:
+        ctx.guarded(r, AC.check_hazards, kind)
+    r = ctx.rule("R2g", "local labels are defined once, referenced in range and committed", 21)
+    for kind in AC.ALL:
+        ctx.guarded(r, AC.check_labels, kind)
+    r = ctx.rule("R2e", "call helpers restore every live register and pointer, marshal operand lanes in and result lanes out", 8)
+    for kind in AC.ALL:
+        for n in ("call_fn_unary", "call_fn_binary"):
+            ctx.guarded(r, AK.check_call_helper, kind, n)
+    r = ctx.rule("R2f", "call area / rbp slots stay inside the reserved frame; spill offsets based at STACK_SIZE_LOWER", 4)
+    for kind in AC.ALL:
+        ctx.guarded(r, AK.check_frame, kind)
+    r = ctx.rule("R2h", "integer compares appear only as the all-ones idiom (float data is compared as float)", 23)
+    for kind in AC.ALL:
+        ctx.guarded(r, AC.check_int_compare, kind)
+    r = ctx.rule("R2i", "sibling assemblers agree on the magic constants of each opcode", 5)
+    ctx.guarded(r, AC.check_magic_constants)
